@@ -150,6 +150,7 @@ def run_case(case, ci):
     def site(k):
         del hits[:]
         del syshits[:]
+        finders = sum(1 for f in sys.meta_path if isinstance(f, TraceFinder))
         try:
             if k == "KTop":
                 exec(code["top"], env)
@@ -159,9 +160,9 @@ def run_case(case, ci):
                 env["lam"]()
             else:
                 env["g"]()
-            log.append([k, sorted(set(hits)), len(hits), sorted(set(syshits))])
+            log.append([k, sorted(set(hits)), len(hits), sorted(set(syshits)), finders])
         except NameError as e:
-            log.append([k, "NameError", str(e)[:60], sorted(set(syshits))])
+            log.append([k, "NameError", str(e)[:60], sorted(set(syshits)), finders])
 
     def run_items(items):
         for it in items:
